@@ -106,7 +106,8 @@ type c18Session struct {
 	dsOverStep int
 	foreign    []string
 	unsolicit  []string
-	closeLost  bool
+	barrier    map[int]bool // CLOSE step -> the barrier COUNT sent right after it was seen downstream
+	swallowed  int          // CLOSEs that did not come out downstream (observed, not judged)
 	stall      string
 	ended      bool
 	forced     bool // had to be cancelled because closing the inbound channel did not end it
@@ -178,6 +179,15 @@ func (s *c18Session) absorb(o c18Obs) {
 				s.dsOverStep = s.cur
 			}
 		case *mocrelay.ClientCountMsg:
+			if tag := c18FilterTag(m.ReqFilters); strings.HasPrefix(tag, "barrier:") {
+				if k := s.stepOfTag(tag[len("barrier:"):]); k >= 0 {
+					if s.barrier == nil {
+						s.barrier = map[int]bool{}
+					}
+					s.barrier[k] = true
+				}
+				return
+			}
 			s.tagged("COUNT", c18FilterTag(m.ReqFilters), m.SubscriptionID)
 		case *mocrelay.ClientEventMsg:
 			if m.Event != nil {
@@ -424,15 +434,36 @@ steps:
 			s.stall = fmt.Sprintf("step %d: %s not consumed", k, st.Kind)
 			break steps
 		}
-		if st.Kind == "CLOSE" && s.closeLost {
-			continue // an earlier CLOSE never came out; order stays unambiguous (unbuffered channel)
+		if st.Kind == "CLOSE" {
+			// whether a CLOSE is passed on is not claimed (a CLOSE of an id that holds no slot may
+			// be consumed): a COUNT that every middleware of the stack passes on follows it as a
+			// barrier; messages of one connection stay in order, so once the barrier has come out
+			// downstream the CLOSE either came out before it or never will
+			bar := &mocrelay.ClientCountMsg{SubscriptionID: "barrier", ReqFilters: []*mocrelay.ReqFilter{{IDs: []string{"barrier:" + s.tag(k)}}}}
+			ok := hand(k, func(t <-chan time.Time) bool {
+				select {
+				case s.recv <- bar:
+					return true
+				case <-t:
+					return false
+				case <-done:
+					return false
+				}
+			})
+			if !ok {
+				s.stall = fmt.Sprintf("step %d: the barrier COUNT after a CLOSE was not consumed", k)
+				break steps
+			}
+			if !s.await(func() bool { return s.barrier[k] }) {
+				s.stall = fmt.Sprintf("step %d: the barrier COUNT after a CLOSE never came out downstream within %v", k, c18Wait)
+				break steps
+			}
+			if st.fwd == 0 {
+				s.swallowed++
+			}
+			continue
 		}
 		if !s.await(func() bool { return st.fwd > 0 && (st.Reply == "" || st.dsOK > 0) || st.rej > 0 }) {
-			if st.Kind == "CLOSE" {
-				s.closeLost = true
-				c18Stalls.Add(1)
-				continue
-			}
 			s.stall = fmt.Sprintf("step %d: %s consumed, neither forwarded nor answered within %v", k, st.Kind, c18Wait)
 			break steps
 		}
